@@ -153,9 +153,11 @@ def run(spec, tier, seed, collect=None):
     if proof_broken or corr_broken or spec.get('always_search'):
         failing = {}
         if proof_broken:
-            for (name, biglist) in spec.get('checkers', []):
+            for chk in spec.get('checkers', []):
+                name, biglist = chk[0], chk[1]
                 try:
-                    fe = cl.failing_entries('Chk.' + name, biglist)
+                    fe = cl.failing_entries('Chk.' + name, biglist, accessor=chk[2] if len(chk) > 2 else 'e',
+                                            imports=spec.get('checker_imports', ('PhQVerif.Checkers', 'PhQVerif.Generated.All')))
                 except Exception as ex:  # noqa: BLE001
                     fe = []
                     notes.append('could not list failing entries for %s: %s' % (name, ex))
@@ -410,7 +412,7 @@ def c04_search(ctx, failing, corr, broken):
             reqs.append((e['index'], fmt, [co.hex_of(*x) for x in vals], []))
             info.append((e, fmt, v, vals))
     if not reqs:
-        return []
+        return c04_stdmath_search(ctx, failing, rng)
     res, err, rc = ctx.run_native(reqs)
     out = []
     for (e, fmt, v, vals), r in zip(info, res):
@@ -443,6 +445,66 @@ def c04_search(ctx, failing, corr, broken):
                 break
         if len(out) >= 5:
             break
+    out += c04_stdmath_search(ctx, failing, rng)
+    return out
+
+
+def c04_stdmath_search(ctx, failing, rng):
+    """std:: overloads for dimensionless scalars on the real code against a 400-bit reference: the result must
+    be that function of the stored number, to the accuracy of the C library (2 ulps of the quantity's type)."""
+    rows = failing.get('C04std') or []
+    if not rows:
+        return []
+    fn = {'std::abs': 'abs', 'std::cbrt': 'cbrt', 'std::exp': 'exp', 'std::log': 'log', 'std::log2': 'log2',
+          'std::log10': 'log10', 'std::pow': 'pow', 'std::sqrt': 'sqrt'}
+    by_id = ctx.by_id
+    reqs, info = [], []
+    for (eid, bits) in rows[:60]:
+        e = by_id.get(eid)
+        if e is None or e['meta']['kind'] != 'stdmath':
+            continue
+        fmt = int(bits)
+        v = e['instances'][0]['fmts'].get(str(fmt))
+        if v is None:
+            continue
+        name = next((fn[k] for k in fn if k in e['id']), None) or e['meta'].get('name')
+        for _ in range(6):
+            vals = []
+            for i in range(v['n_in']):
+                mm = rng.getrandbits(co.FMT[fmt][0] - 1) | (1 << (co.FMT[fmt][0] - 1))
+                vals.append((False, mm, rng.randrange(-3, 3) - (co.FMT[fmt][0] - 1)))
+            reqs.append((e['index'], fmt, [co.hex_of(*x) for x in vals], []))
+            info.append((e, fmt, name, vals))
+    if not reqs:
+        return []
+    res, _, _ = ctx.run_native(reqs)
+    import mpmath
+    out = []
+    for (e, fmt, name, vals), r in zip(info, res):
+        if not r or r.get('error'):
+            continue
+        outs = num_outs(r)
+        if len(outs) != 1 or outs[0][1] in ('nan', 'inf', '-inf'):
+            continue
+        args = [co.canon(Fraction(mm) * Fraction(2) ** ee) for (_, mm, ee) in vals]
+        if name == 'sqrt':
+            mpmath.mp.prec = 400
+            ref = mpmath.sqrt(mpmath.mpf(co.frac_of_canon(args[0]).numerator) / mpmath.mpf(co.frac_of_canon(args[0]).denominator))
+        elif name == 'abs':
+            continue
+        else:
+            ref = co.libm_reference(name, args)
+        if ref is None or isinstance(ref, str):
+            continue
+        okk = co.within_ulps(outs[0][1], ref, fmt, 4)
+        if okk is False:
+            out.append({'kind': 'c04-stdmath', 'entry': e['id'], 'fmt': fmt, 'index': e['index'],
+                        'inputs': [co.hex_of(*x) for x in vals],
+                        'what': '%s of the stored value %s gives %s on the real code; %s of that number is %s' % (
+                            e['id'], [float(co.frac_of_canon(a)) for a in args], float(co.frac_of_canon(outs[0][1])),
+                            name, mpmath.nstr(ref, 25))})
+            if len(out) >= 3:
+                break
     return out
 
 
@@ -2187,11 +2249,113 @@ def c15_search(ctx, failing, corr, broken):
                                 'roundtrip': '(does not parse back to the same number)', 'zero': 'text for zero'}[kind]),
                             'replay_cmd': 'printsweep near %s 2000' % fmt})
     ctx.c15_totals = totals
+    out += c15_composite_search(ctx, failing)
     for d in (corr or {}).get('disagreements', [])[:3]:
         if d['id'].startswith('PhQ::'):
             continue
         out.append({'kind': 'c15-composite', 'entry': d['id'], 'fmt': d['fmt'], 'what': d['detail'],
                     'native_request': d['native_request']})
+    return out
+
+
+COMP_NAMES_C15 = {2: ['x', 'y'], 3: ['x', 'y', 'z'], 6: ['xx', 'xy', 'xz', 'yy', 'yz', 'zz'],
+                  9: ['xx', 'xy', 'xz', 'yx', 'yy', 'yz', 'zx', 'zy', 'zz']}
+
+
+def py_template(form, n, abbr, nums):
+    """The text a serialisation must be (Python copy of Serial.template, for the search only)."""
+    if n == 1:
+        inner = nums[0]
+    else:
+        names = COMP_NAMES_C15[n]
+        if form == 'Print':
+            s_ = ''
+            for i in range(n):
+                sep = '(' if i == 0 else ('; ' if (n == 6 and i in (3, 5)) or (n == 9 and i in (3, 6)) else ', ')
+                s_ += sep + nums[i]
+            inner = s_ + ')'
+        elif form == 'JSON':
+            inner = '{' + ','.join('"%s":%s' % (nm, x) for nm, x in zip(names, nums)) + '}'
+        elif form == 'XML':
+            inner = ''.join('<%s>%s</%s>' % (nm, x, nm) for nm, x in zip(names, nums))
+        else:
+            inner = '{' + ','.join('%s:%s' % (nm, x) for nm, x in zip(names, nums)) + '}'
+    if abbr is None:
+        return inner
+    return {'Print': '%s %s', 'JSON': '{"value":%s,"unit":"%s"}', 'XML': '<value>%s</value><unit>%s</unit>',
+            'YAML': '{value:%s,unit:"%s"}'}[form] % (inner, abbr)
+
+
+def c15_composite_search(ctx, failing):
+    """For serialisation entries whose template obligation failed: the real strings on random distinct values
+    against the template filled with the real printer's text of Value(unit)."""
+    rows = (failing.get('C15serial') or []) + (failing.get('C15stream') or [])
+    if not rows:
+        return []
+    rng = random.Random(ctx.seed + 154)
+    by_id = ctx.by_id
+    units = {u['name']: u for u in ctx.tables['units']}
+    out, reqs, meta = [], [], []
+    for (eid, bits) in rows[:40]:
+        eid = eid.encode().decode('unicode_escape') if '\\' in eid else eid
+        e = by_id.get(eid)
+        if e is None:
+            continue
+        m = e['meta']
+        fmt = int(bits)
+        v = e['instances'][0]['fmts'].get(str(fmt))
+        if v is None:
+            continue
+        form = m.get('name') if m['kind'] == 'method' else 'Print'
+        vid = '%s::Value(UnitType)[%s]' % (m['cls'], m['unit']) if m.get('unit') else '%s::Value()' % m['cls']
+        ve = by_id.get(vid)
+        n = v['n_in']
+        vals = []
+        for i in range(n):
+            s_, mm, ee = co.random_value(rng, fmt, 'moderate')
+            vals.append((s_, (mm or 1) + 2 * i, ee))
+        hx = [co.hex_of(*x) for x in vals]
+        reqs.append((e['index'], fmt, hx, []))
+        reqs.append(((ve or e)['index'], fmt, hx, []))
+        meta.append((e, ve, fmt, form, hx, n))
+    res, _, _ = ctx.run_native(reqs)
+    for k, (e, ve, fmt, form, hx, n) in enumerate(meta):
+        rs, rv = res[2 * k], res[2 * k + 1]
+        if not rs or rs.get('error'):
+            continue
+        real = next((o['t'] for o in rs['outs'] if o['l'].endswith(':str')), None)
+        if real is None:
+            continue
+        if ve is not None and rv and not rv.get('error'):
+            comps = [o['t'] for o in rv['outs'] if o['l'].rsplit(':', 1)[1].startswith('num')]
+        else:
+            comps = hx
+        items = []
+        for c in comps:
+            cn = co.canon_of_hex(c)
+            if cn in ('nan', 'inf', '-inf'):
+                items = None
+                break
+            ms, es = cn.split()
+            items.append((fmt, ms.startswith('-'), abs(int(ms)), int(es)))
+        if not items:
+            continue
+        nums = real_print(ctx, items)
+        m = e['meta']
+        ci = ctx.classes['class_index'].get(m['cls'])
+        cinfo = ctx.classes['classes'][ci - 1] if ci else None
+        abbr = None
+        if cinfo and cinfo.get('unit'):
+            u = ctx.tables['units'][cinfo['unit'] - 1]
+            names = dict((nm, val) for nm, val in u['enumerators'])
+            uv = names[m['unit']] if m.get('unit') else u['standard']
+            abbr = dict(u['abbreviations'])[uv]
+        want = py_template(form, len(nums), abbr, nums)
+        if real != want:
+            out.append({'kind': 'c15-composite', 'entry': e['id'], 'fmt': fmt, 'inputs': hx,
+                        'what': '%s on components %s gives %r; the form of the property is %r' % (e['id'], hx, real, want)})
+            if len(out) >= 3:
+                break
     return out
 
 
@@ -2423,7 +2587,9 @@ SPECS = {
     'C15': {
         'id': 'C15', 'level': 'proof',
         'lean_targets': ['PhQVerif.Audit.C15'],
-        'checkers': [('C15serial', 'Generated.Serial.rows'), ('C15stream', 'Generated.Streams.rows')],
+        'checkers': [('C15serial', 'Generated.Serial.rows', 'e.1'), ('C15stream', 'Generated.Streams.rows', 'e.1')],
+        'checker_imports': ('PhQVerif.Checkers', 'PhQVerif.Generated.All', 'PhQVerif.Generated.Serial',
+                            'PhQVerif.Generated.Streams'),
         'correspond': c15_correspond,
         'search': c15_search,
         'always_search': True,
